@@ -299,6 +299,14 @@ func (s *runState) writer(end int, seed int64, wg *sync.WaitGroup) {
 		c = l.begin(end, "setwd", 0, nil)
 		err = conn.SetWriteDeadline(time.Time{})
 		l.end(c, 0, err)
+		// and deadlines withdrawn at the very instant they pass (16 times): the withdrawal wins
+		for k := 0; k < 16; k++ {
+			at := time.Now().Add(time.Duration(20+rng.Intn(40)) * time.Microsecond)
+			conn.SetWriteDeadline(at)
+			for time.Now().Before(at) {
+			}
+			conn.SetWriteDeadline(time.Time{})
+		}
 		time.Sleep(8 * time.Millisecond)
 	}
 	defer func() {
@@ -380,6 +388,13 @@ func (s *runState) reader(end int, seed int64, wg *sync.WaitGroup) {
 		c = l.begin(end, "setrd", 0, nil)
 		err = conn.SetReadDeadline(time.Time{})
 		l.end(c, 0, err)
+		for k := 0; k < 16; k++ {
+			at := time.Now().Add(time.Duration(20+rng.Intn(40)) * time.Microsecond)
+			conn.SetReadDeadline(at)
+			for time.Now().Before(at) {
+			}
+			conn.SetReadDeadline(time.Time{})
+		}
 		time.Sleep(8 * time.Millisecond)
 	}
 	defer func() {
@@ -981,7 +996,7 @@ func bucket(b int) string {
 
 func main() {
 	r := ev.Start("C39", "exploration")
-	r.SetRule("(a sixth of the stream runs start with every goroutine setting a deadline 3 ms ahead, withdrawing it at once and waiting 8 ms: no call may time out afterwards) one run = one real BufferedPipe(buf), buf in 1..64 (biased to 1..3), a writer and a reader goroutine per end (chunks of 0..4*buf bytes, read buffers 0..2*buf+2, seeded Gosched/sleep yields), the initiator closing after its last write, the responder after its reader ended, in 1/3 of the runs an early Close of either end after the k-th op of a seeded goroutine (inline or from a third goroutine), and in 2/5 of the runs a read or write deadline (armed by the caller or by a third goroutine) on a call that is logically starved: the peer goroutine is gated until the timeout was seen. Non-trivial: >= 1 byte was transferred and checked. Distinct by (mode, buffer bucket, initiator, early-close end/kind, some chunk > buffer, traffic > 2*buffer, timeout observed on the starved call, a failed write contributed a prefix, number of directions read to EOF)")
+	r.SetRule("(a sixth of the stream runs start with every goroutine setting a deadline 3 ms ahead, withdrawing it at once, then 16 times setting one 20-60 us ahead and withdrawing it at the instant it passes, and waiting 8 ms: no call may time out afterwards) one run = one real BufferedPipe(buf), buf in 1..64 (biased to 1..3), a writer and a reader goroutine per end (chunks of 0..4*buf bytes, read buffers 0..2*buf+2, seeded Gosched/sleep yields), the initiator closing after its last write, the responder after its reader ended, in 1/3 of the runs an early Close of either end after the k-th op of a seeded goroutine (inline or from a third goroutine), and in 2/5 of the runs a read or write deadline (armed by the caller or by a third goroutine) on a call that is logically starved: the peer goroutine is gated until the timeout was seen. Non-trivial: >= 1 byte was transferred and checked. Distinct by (mode, buffer bucket, initiator, early-close end/kind, some chunk > buffer, traffic > 2*buffer, timeout observed on the starved call, a failed write contributed a prefix, number of directions read to EOF)")
 	r.Assume("schedules are sampled by the Go scheduler under seeded yields and parallel load, not enumerated; one writer and one reader goroutine per direction (plus closers / deadline setters), as in the property's quantifier")
 	r.Assume("a run that does not finish is a violation only if the scheduler's goroutine dump proves that no progress is possible (every goroutine of the run parked in sync.Cond.Wait inside bufconn or blocked on the run's own channels, no deadline set, two identical looks); otherwise the 60 s watchdog reports INCONCLUSIVE with the pending call")
 	r.Assume("a failed Write may have transferred a prefix of its bytes although it reports n=0 (the statement does not pin the count down); timeouts are only required to be well-formed and to have an armed deadline as cause, a late timer firing after a deadline was cleared is not judged")
